@@ -278,45 +278,7 @@ impl DefaultSolver<F> {
 //@end
 }
 
-// ------------------------------------------------------------------ propagation into the KKT matrix and the LDL engine's copy
-// the last writer of slot s among the first n (index, value) pairs wins; untouched slots keep their value
-pub open spec fn last_writer(index: Seq<usize>, n: int, k: int) -> bool {
-    0 <= k < n && forall|k2: int| k < k2 < n ==> index[k2] != index[k]
-}
-//@fn file=src/solver/core/kktsolvers/direct/quasidef/directldlkktsolver.rs name=_update_values_KKT rules=R1,zipidx:1=ii
-//@contract
-    requires forall|k: int| 0 <= k < index@.len() ==> index@[k] < old(KKT).nzval@.len(),
-    ensures
-        final(KKT).same_pattern(old(KKT)),
-        // C08 / C11: KKT.nzval[index[k]] = values[k] (zip stops at the shorter of the two), nothing else is written
-        ({ let n = if index@.len() < values@.len() { index@.len() as int } else { values@.len() as int };
-           &&& forall|k: int| last_writer(index@, n, k) ==> final(KKT).nzval@[#[trigger] index@[k] as int] == values@[k]
-           &&& forall|s: int| 0 <= s < old(KKT).nzval@.len() && (forall|k: int| 0 <= k < n ==> index@[k] != s) ==> #[trigger] final(KKT).nzval@[s] == old(KKT).nzval@[s] }),
-//@loop 1
-        invariant
-            KKT.same_pattern(old(KKT)), r14_n1 <= index@.len(), r14_n1 <= values@.len(),
-            forall|k: int| 0 <= k < index@.len() ==> index@[k] < KKT.nzval@.len(),
-            forall|k: int| last_writer(index@, r14_i1 as int, k) ==> KKT.nzval@[#[trigger] index@[k] as int] == values@[k],
-            forall|s: int| 0 <= s < old(KKT).nzval@.len() && (forall|k: int| 0 <= k < r14_i1 ==> index@[k] != s) ==> #[trigger] KKT.nzval@[s] == old(KKT).nzval@[s],
-//@end
-//@fn file=src/solver/core/kktsolvers/direct/quasidef/directldlkktsolver.rs name=_scale_values_KKT rules=R1,zipidx:*
-//@contract
-    requires forall|k: int| 0 <= k < index@.len() ==> index@[k] < old(KKT).nzval@.len(),
-        // the recorded diagonal / block maps never repeat a slot (a repeated slot would be scaled twice)
-        forall|a: int, b: int| 0 <= a < b < index@.len() ==> index@[a] != index@[b],
-    ensures
-        final(KKT).same_pattern(old(KKT)),
-        forall|k: int| 0 <= k < index@.len() ==> final(KKT).nzval@[#[trigger] index@[k] as int] == f_mul(old(KKT).nzval@[index@[k] as int], scale),
-        forall|s: int| 0 <= s < old(KKT).nzval@.len() && (forall|k: int| 0 <= k < index@.len() ==> index@[k] != s) ==> #[trigger] final(KKT).nzval@[s] == old(KKT).nzval@[s],
-//@loop 1
-        invariant
-            KKT.same_pattern(old(KKT)), r14_n1 == index@.len(),
-            forall|k: int| 0 <= k < index@.len() ==> index@[k] < KKT.nzval@.len(),
-            forall|a: int, b: int| 0 <= a < b < index@.len() ==> index@[a] != index@[b],
-            forall|k: int| 0 <= k < r14_i1 ==> KKT.nzval@[#[trigger] index@[k] as int] == f_mul(old(KKT).nzval@[index@[k] as int], scale),
-            forall|k: int| r14_i1 <= k < index@.len() ==> KKT.nzval@[#[trigger] index@[k] as int] == old(KKT).nzval@[index@[k] as int],
-            forall|s: int| 0 <= s < old(KKT).nzval@.len() && (forall|k: int| 0 <= k < index@.len() ==> index@[k] != s) ==> #[trigger] KKT.nzval@[s] == old(KKT).nzval@[s],
-//@end
+//@include units/inc/kkt_values.rs
 
 } // verus!
 fn main() {}
